@@ -163,8 +163,14 @@ struct World { rec: Rec, handles: Rc<RefCell<Handles>>, describes: u64 }
 static META: Metadata<'static> = Metadata::new("mv", Level::INFO, None);
 /// When set, even huge record counts are performed as that many real `record` calls (one thorough-tier case).
 static FULL_LOOP: AtomicBool = AtomicBool::new(false);
+/// Panics raised by implementation calls (handle operations, readout, Entry::write) since the last reset: a panic
+/// is an observation, not a crash of the harness.
+static PANICS: AtomicU64 = AtomicU64::new(0);
 
 fn apply(rec: &Rec, hs: &RefCell<Handles>, describes: &mut u64, l: &L) {
+    if crate::common::catch(|| apply_inner(rec, hs, describes, l)).is_none() { PANICS.fetch_add(1, Ordering::Relaxed); }
+}
+fn apply_inner(rec: &Rec, hs: &RefCell<Handles>, describes: &mut u64, l: &L) {
     match l {
         L::Register(0, k) => { let h = rec.register_counter(&mkey(k), &META); hs.borrow_mut().c.push((k.clone(), h)); }
         L::Register(1, k) => { let h = rec.register_gauge(&mkey(k), &META); hs.borrow_mut().g.push((k.clone(), h)); }
@@ -246,7 +252,10 @@ impl<'a> EntryWriter<'a> for RecWriter {
 }
 fn entry_items(e: &impl Entry) -> Sx {
     let mut w = RecWriter { items: vec![] };
-    e.write(&mut w);
+    if crate::common::catch(|| e.write(&mut w)).is_none() {
+        PANICS.fetch_add(1, Ordering::Relaxed);
+        w.items.push(sx::tag(9, vec![sx::b(b"panic in Entry::write")]));
+    }
     Sx::L(w.items)
 }
 
@@ -288,12 +297,20 @@ fn execute(ez: bool, plan: &[Top]) -> (Vec<L>, Vec<Sx>) {
                         _ => {}
                     }
                 })));
-                let guard = set_time_source(TimeSource::custom(StaticTimeSource::at_time(UNIX_EPOCH + Duration::from_nanos(*ts))));
-                let entry = if entries.len() % 2 == 0 { rec.readout() } else { rec.clone().readout() };
-                drop(guard);
+                let nth = entries.len();
+                let entry = crate::common::catch(|| {
+                    let _guard = set_time_source(TimeSource::custom(StaticTimeSource::at_time(UNIX_EPOCH + Duration::from_nanos(*ts))));
+                    if nth % 2 == 0 { rec.readout() } else { rec.clone().readout() }
+                });
                 metrique_metricsrs::verif::set_hook(None);
                 describes = *dcount.borrow();
-                entries.push(entry_items(&entry));
+                match entry {
+                    Some(entry) => entries.push(entry_items(&entry)),
+                    None => {
+                        PANICS.fetch_add(1, Ordering::Relaxed);
+                        entries.push(Sx::L(vec![sx::tag(9, vec![sx::b(b"panic in readout")])]));
+                    }
+                }
             }
         }
     }
@@ -301,11 +318,18 @@ fn execute(ez: bool, plan: &[Top]) -> (Vec<L>, Vec<Sx>) {
     (t, entries)
 }
 
-fn run_case(ez: bool, plan: &[Top]) -> (Sx, Sx, bool) {
+fn run_case(ez: bool, plan: &[Top], out: &mut Out) -> (Sx, Sx, bool) {
+    PANICS.store(0, Ordering::Relaxed);
     let (labels, entries) = execute(ez, plan);
     let case = Sx::L(vec![sx::boolean(ez), Sx::L(labels.iter().map(enc_label).collect())]);
+    let panics = PANICS.load(Ordering::Relaxed);
+    if panics > 0 {
+        out.count("cases_with_implementation_panic");
+        out.fail(format!("the implementation panicked {panics} time(s) (metric update, readout or Entry::write)"), &case);
+    }
     let imp = sx::tag(1, vec![Sx::L(entries)]);
-    let during_updates = plan.iter().any(|t| matches!(t, Top::Readout { during, .. } if !during.is_empty()));
+    let during_updates = plan.iter().any(|t| matches!(t, Top::Readout { during, .. } if !during.is_empty()))
+        || plan.iter().any(|t| matches!(t, Top::Op(L::HRec(_, _, n)) if *n >= 2000));
     (case, imp, during_updates)
 }
 
@@ -535,10 +559,37 @@ fn reporter_run(out: &mut Out, rng: &mut Rng, case_id: u64) {
     }
 }
 
+/// Runs whose histogram buckets reach value x count >= 2^32 within one readout (the products the Entry impl
+/// computes): many real records of a large value, the bulk accessor, boundary products around 2^32.
+fn gen_big_plan(rng: &mut Rng) -> Vec<Top> {
+    let k = rng.pick(&key_pool()).clone();
+    let mut plan = vec![Top::Op(L::Register(2, k.clone()))];
+    if rng.chance(1, 2) { plan.push(Top::Op(L::Describe(k.name.clone(), rng.below(18) as u8))); }
+    let (v, t): (f64, u64) = match rng.below(7) {
+        0 => (70_000.0, 70_000),
+        1 => (65_536.0, 65_536),
+        2 => ((1u64 << rng.range(20, 31)) as f64, rng.range(3_000, 9_000)),
+        3 => (4_294_967_295.0, rng.range(2, 5)),
+        4 => (rng.range(2, 60) as f64, (1 << 23) + rng.below(1 << 28)),          // bulk accessor
+        5 => ((1u64 << rng.range(12, 20)) as f64, 1u64 << rng.range(20, 24)),
+        _ => (rng.range(60_000, 3_000_000) as f64, rng.range(40_000, 90_000)),
+    };
+    plan.push(Top::Op(L::HRec(k.clone(), v.to_bits(), t)));
+    if rng.chance(1, 2) { plan.push(Top::Op(L::HRec(k.clone(), float_value(rng).to_bits(), rng.range(1, 30)))); }
+    let mut during: BTreeMap<usize, Vec<L>> = BTreeMap::new();
+    if rng.chance(1, 2) { during.entry(rng.below(5) as usize).or_default().push(L::HRec(k.clone(), v.to_bits(), rng.range(1, 2000))); }
+    plan.push(Top::Readout { ts: 1_000_000_007 * rng.range(1, 1000), during });
+    plan.push(Top::Readout { ts: 1_000_000_007 * 2000, during: BTreeMap::new() });
+    plan
+}
+
 pub fn run(ctx: &Ctx) {
-    let mut out = Out::new(ctx, "");
+    crate::common::quiet_panics();
+    // the release profile (wrapping arithmetic, no debug assertions) has its own suite: value computations only
+    let release = ctx.extra.windows(2).any(|w| w[0] == "--profile" && w[1] == "release");
+    let mut out = Out::new(ctx, if release { "-rel" } else { "" });
     let emit = |out: &mut Out, ez: bool, plan: &[Top]| {
-        let (case, imp, nt) = run_case(ez, plan);
+        let (case, imp, nt) = run_case(ez, plan, out);
         count_plan(out, case.list()[1].list());
         out.case(&case, &imp, nt);
     };
@@ -553,7 +604,20 @@ pub fn run(ctx: &Ctx) {
     }
     let mut rng = Rng::new(ctx.seed);
     let thorough = ctx.tier_thorough;
-    for i in 0..(if thorough { 8000 } else { 2500 }) {
+    for i in 0..(if thorough { 200 } else { 40 }) {
+        let plan = gen_big_plan(&mut rng);
+        out.count("big_product_runs");
+        emit(&mut out, i % 2 == 0, &plan);
+    }
+    if release {
+        for i in 0..(if thorough { 1500 } else { 200 }) {
+            let plan = gen_plan(&mut rng, false);
+            emit(&mut out, i % 3 == 0, &plan);
+        }
+        out.finish("release profile: runs whose bucket products value x count reach 2^32, plus random runs; distinct by hash of the label list");
+        return;
+    }
+    for i in 0..(if thorough { 8000 } else { 2000 }) {
         let plan = gen_plan(&mut rng, thorough);
         emit(&mut out, i % 3 == 0, &plan);
     }
@@ -569,10 +633,17 @@ pub fn run(ctx: &Ctx) {
     }
     for i in 0..(if thorough { 40 } else { 8 }) {
         let threads = rng.range(2, if thorough { 16 } else { 8 }) as usize;
-        stress(&mut out, &mut rng, threads, if thorough { 200_000 } else { 30_000 }, i);
+        let per = if thorough { 200_000 } else { 30_000 };
+        if crate::common::catch(|| stress(&mut out, &mut rng, threads, per, i)).is_none() {
+            out.fail("stress: a thread of the run panicked inside the implementation".into(), &sx::tag(99, vec![sx::n(i)]));
+        }
     }
-    for i in 0..(if thorough { 60 } else { 12 }) { reporter_run(&mut out, &mut rng, i); }
+    for i in 0..(if thorough { 60 } else { 12 }) {
+        if crate::common::catch(|| reporter_run(&mut out, &mut rng, i)).is_none() {
+            out.fail("reporter: the run panicked inside the implementation".into(), &sx::tag(98, vec![sx::n(i)]));
+        }
+    }
     out.notes.push("reporter runs: the real MetricReporter task on a tokio runtime (periodic + final readout) with updater threads; accounting predicate only".into());
     out.notes.push("stress runs (updater threads against a reporter thread, unscheduled) are checked by the accounting predicate only".into());
-    out.finish("runs in which at least one update is placed between the per-key steps of a readout; distinct by hash of the label list");
+    out.finish("runs in which at least one update is placed between the per-key steps of a readout, or whose bucket products reach 2^32; distinct by hash of the label list");
 }
